@@ -54,6 +54,7 @@ type PathState struct {
 	unknowns  int
 	assumed   int
 	labelsChecked map[string]int
+	concurrent bool // the harness explores goroutine interleavings: native runs are schedule-dependent
 }
 
 type Observation struct {
